@@ -476,6 +476,90 @@ theorem handleUpdate_ok_inv (c : Cfg) (s s' : Store) (tx : Tx) (d : NDoc) (h : h
         · rename_i hf
           exact ⟨cur, ctrls, k, hcur, hctrls, hk, hf, storeAdd_ok c s s' tx d h⟩
 
+/-! ### the converse: the checks are all there is -/
+
+theorem storeAdd_of_add (c : Cfg) (s s' : Store) (tx : Tx) (d : NDoc) (h : add c.store s (eventOf tx d) = .ok s') :
+    storeAdd c s tx d = .ok s' := by
+  unfold storeAdd; rw [h]
+
+theorem callback_of_create (c : Cfg) (s s' : Store) (tx : Tx) (d : NDoc) (k : Key)
+    (hi : checkTransactionIntegrity tx = .ok ()) (hv : validate c.thumb c.vmNilJwkErr c.validators d = .ok ())
+    (hk : tx.embedded = some k) (hid : d.idID = c.didThumb k) (ha : add c.store s (eventOf tx d) = .ok s') :
+    callback c s tx (some d) = .ok s' := by
+  unfold callback
+  rw [hi]; simp only
+  rw [hv]; simp only
+  rw [hk]; simp only
+  unfold handleCreate
+  simp only [hid, ne_eq, not_true_eq_false, if_false]
+  exact storeAdd_of_add c s s' tx d ha
+
+theorem callback_of_update (c : Cfg) (s s' : Store) (tx : Tx) (d : NDoc) (cur : Doc) (ctrls : List Doc) (k : Key)
+    (hi : checkTransactionIntegrity tx = .ok ()) (hv : validate c.thumb c.vmNilJwkErr c.validators d = .ok ())
+    (hu : tx.embedded = none) (hcur : currentVersion s d.id tx.prevs = .ok cur)
+    (hc : ambControllers c s cur tx = .ok ctrls) (hk : resolvePublicKey c.maxDepth s tx.kid tx.prevs = .ok k)
+    (hf : findKey c.thumb c.findKeyNilJwkErr (c.thumb k) (capInvOf ctrls) = .ok true)
+    (ha : add c.store s (eventOf tx d) = .ok s') :
+    callback c s tx (some d) = .ok s' := by
+  unfold callback
+  rw [hi]; simp only
+  rw [hv]; simp only
+  rw [hu]; simp only
+  unfold handleUpdate
+  rw [hcur]; simp only
+  rw [hc]; simp only
+  rw [hk]; simp only
+  rw [hf]; simp only
+  exact storeAdd_of_add c s s' tx d ha
+
+/-! ### store-level resolution without AllowDeactivated -/
+
+theorem matchesMeta_not_deactivated (m : Meta) (rm : Option ResolveMeta) (ha : allowOf rm = false)
+    (h : matchesMeta m rm = true) : m.deactivated = false := by
+  unfold matchesMeta at h
+  cases rm with
+  | none => simpa using h
+  | some r =>
+    simp only [allowOf] at ha
+    simp only [ha, Bool.not_false, Bool.and_true] at h
+    cases hd : m.deactivated with
+    | false => rfl
+    | true => simp [hd] at h
+
+theorem resolveChain_ok (rm : Option ResolveMeta) (ha : allowOf rm = false) :
+    ∀ (chain : List (Doc × Meta)) (d : Doc) (m : Meta), resolveChain rm chain = .ok (d, m) →
+      m.deactivated = false ∧ (d, m) ∈ chain := by
+  intro chain
+  induction chain with
+  | nil => intro d m h; simp [resolveChain] at h
+  | cons p rest ih =>
+    intro d m h
+    obtain ⟨d0, m0⟩ := p
+    unfold resolveChain at h
+    split at h
+    · cases h
+    · split at h
+      · rename_i hm
+        cases h
+        exact ⟨matchesMeta_not_deactivated m rm ha hm, List.mem_cons_self⟩
+      · obtain ⟨h1, h2⟩ := ih d m h
+        exact ⟨h1, List.mem_cons_of_mem _ h2⟩
+
+/-- a version that the store resolves without `AllowDeactivated` is not flagged deactivated and is a stored version -/
+theorem storeDoc_ok (s : Store) (rm : Option ResolveMeta) (ha : allowOf rm = false) (id : String) (d : Doc)
+    (h : storeDoc s rm id = .ok d) :
+    ∃ m, resolve s id rm = .ok (d, m) ∧ m.deactivated = false ∧ (d, m) ∈ (s.get id).chain := by
+  unfold storeDoc at h
+  split at h
+  · rename_i d' m hr
+    cases h
+    refine ⟨m, hr, ?_⟩
+    unfold resolve at hr
+    obtain ⟨h1, h2⟩ := resolveChain_ok rm ha _ d m hr
+    exact ⟨h1, by simpa using h2⟩
+  · cases h
+  · cases h
+
 /-! ### validators -/
 
 def allOn : Rule → Bool := fun _ => true
